@@ -12,12 +12,18 @@ try:
 except Exception: pass" 2>/dev/null)
 rm -rf $S; cp -a /repo $S
 cd $S
+# SEED_BASE=<commit>: judge the seed on an earlier tree (when a later repair removed the defect the seeded change relied on)
+[ -n "$SEED_BASE" ] && { git checkout -q $SEED_BASE && echo "base tree: $SEED_BASE"; }
 make -s -j4 >/dev/null 2>&1
 gcc -w -DHAVE_CONFIG_H -I$S -I$S/include -I$S/include/libast $D/demo.c $S/src/.libs/libast.a -lpcre -lX11 -lm -ldl $WRAP -o $S/demo0 2>/dev/null && (cd $S; timeout 120 $S/demo0 >/dev/null 2>&1; echo "demo exit (unmodified) = $?")
-git apply $D/patch.diff || { echo "PATCH DOES NOT APPLY"; rm -rf $S; exit 3; }
+PATCH=$D/patch.diff
+# a repair of a genuine defect may have rewritten the lines a seeded change touches: patch_rebased.diff is the same change
+# carried over to the repaired lines by hand (meta.json says so)
+[ -f $D/patch_rebased.diff ] && PATCH=$D/patch_rebased.diff && echo "using patch_rebased.diff"
+git apply $PATCH || { echo "PATCH DOES NOT APPLY"; rm -rf $S; exit 3; }
 VERIF_REPO=$S /verif/tools/baseline.sh | tail -2
 gcc -w -DHAVE_CONFIG_H -I$S -I$S/include -I$S/include/libast $D/demo.c $S/src/.libs/libast.a -lpcre -lX11 -lm -ldl $WRAP -o $S/demo1 2>/dev/null && (cd $S; timeout 120 $S/demo1 >/dev/null 2>&1; echo "demo exit (patched) = $?")
 cd /verif && VERIF_REPO=$S VERIF_JOBS=4 ./vcheck $PROP $TIER > $S.out 2>/dev/null; rc=$?
 echo "vcheck $PROP $TIER on patched copy: exit=$rc violations=$(grep -c '^VIOLATION' $S.out)"
-grep '^VIOLATION' $S.out | head -3 | cut -c1-330
+grep '^VIOLATION' $S.out | head -${SEED_SHOW:-3} | cut -c1-330
 rm -rf $S $S.out
